@@ -92,14 +92,14 @@ theorem offset_sound {i : Input} {al : AList} (w : ALwf i al) {ls : List Lookup}
   rw [heg] at hasb
   -- the mark side
   have hcls' : cls ∈ clsOf i al := hcls
-  obtain ⟨aM, ⟨asm, hasm, ham⟩, hmark, _, hcn, hrx, hry, hsM⟩ := clsOf_mem w hcls' hr
+  obtain ⟨aM, ⟨asm, hasm, ham⟩, hmark, _, hcn, hgn, hrx, hry, hsM⟩ := clsOf_mem w hcls' hr
   rw [hrm] at hasm
   -- same class ⇒ same key
-  obtain ⟨hnm, hkne, n, _, hkey, hcn2⟩ := classOf_kmOf w hclass
+  obtain ⟨hnm, hkne, n, hnmem, hkey, hcn2⟩ := classOf_kmOf w hclass
   have hsA := w.shape _ hasb bA.a hba hplain
   have hn : n = aM.name := by
-    have : "MC" ++ n = "MC" ++ aM.name := by rw [← hcn2, ← hcn, ← htc, htb]
-    exact (String.append_right_inj "MC").mp this
+    have : cnOf i al n = cnOf i al aM.name := by rw [← hcn2, ← hcn, ← htc, htb]
+    exact (makeClasses_meOf w).2 n hnmem aM.name hgn this
   have hkeys : aM.key = bA.a.key := by rw [← hkey, hn, keyOfMarkName_eq hsM hmark]
   -- source anchors
   obtain ⟨gb, hgb, _, hsrcb⟩ := w.src _ hasb
